@@ -23,9 +23,11 @@ feature  := pep_ix u32(isotope_error) peptide_len charge u32(expmass) u32(calcma
             opt([m (kind charge ordinal u32(intensity) u32(mz_calculated) u32(mz_experimental))…])
 ```
 
-`scoremany report_psms wide_window opt(tol isolation_window) <the arguments of score1>`: the same through a Scorer
+`scoremany report_psms mode(bit 0 = wide_window, bit 1 = chimera) opt(tol isolation_window) <the arguments of score1>`: the same through a Scorer
 with the given `report_psms` / `wide_window` (databases of 49..300 peptides inside one precursor window: `trim_hits`
 really truncates, only `report_psms` PSMs come back).
+In chimera mode (`score_chimera_fast`) the PSM of round i (rank i) is checked against the definition recomputed on the
+spectrum LEFT AFTER removing the matched peaks of the PSMs of rounds < i, with that spectrum's TIC (`judgeChimera`).
 Every feature carries 4 more tokens after `ms2_intensity`: `rank u64(delta_next) u64(delta_best) missed_cleavages`.
 
 `agree`: every feature the implementation reports is one of the model's candidates (after the model of `trim_hits`)
@@ -172,6 +174,8 @@ structure Req where
   wide : Bool := false
   /-- `Precursor::isolation_window` -/
   iw : Option (Tol Float32) := none
+  /-- `Scorer::chimera` -/
+  chimera : Bool := false
 
 def allSomeK : List (Option Kind) → Option (List Kind)
   | [] => some []
@@ -271,9 +275,8 @@ def search (r : Req) : Hits :=
     `useSpec = true`: the naive recomputation.
     Result: every candidate `build_features` scores and keeps (`min_matched_peaks`), with all columns, sorted by
     (peptide index, charge, isotope error); `report_psms` of them (the best by hyperscore) are reported. -/
-def compute (r : Req) (useSpec : Bool) : List (Feat Float32 Float) :=
+def computeH (r : Req) (useSpec : Bool) (hits : Hits) : List (Feat Float32 Float) :=
   let peps := r.raws.map RawPep.toF
-  let hits := search r
   let total := hits.matchedPeaks
   let nScored := hits.scoredCandidates
   let peakArr := r.peaks.toArray
@@ -307,6 +310,8 @@ def compute (r : Req) (useSpec : Bool) : List (Feat Float32 Float) :=
       if s.matchedB + s.matchedY ≥ r.minMatched then
         some (feature E32 pre s n r.precMz p.mass r.tic total nScored)
       else none
+
+def compute (r : Req) (useSpec : Bool) : List (Feat Float32 Float) := computeH r useSpec (search r)
 
 def tkString (l : List Tk) : String := " ".intercalate (l.map (·.2))
 
@@ -421,6 +426,70 @@ def judge (r : Req) (cands : List (Feat Float32 Float)) (impl : List String) : O
           if k != min r.reportPsms cands.length then some "reported_count" else
           relClause r.openms cands feats
 
+/-! ### chimeric mode (`score_chimera_fast`) -/
+
+/-- the (ion, charge) pairs `remove_matched_peaks` visits for a PSM of peptide `pep` reported with `charge` -/
+def fzsOf (r : Req) (pep charge : Nat) : List (FZ Float32) :=
+  match (r.raws.map RawPep.toF)[pep]? with
+  | none => []
+  | some p => fragCharges (r.kinds.map (fun k => (k, Sage.C09.ions constsF k p))) (maxFragmentCharge r.mfcCfg charge)
+
+/-- `score_chimera_fast`, following the implementation's choices: the preliminary hits are computed ONCE on the
+    original spectrum; round `i` scores every candidate on the CURRENT spectrum (peaks and TIC left after removing
+    the matched peaks of the PSMs of rounds `< i`), reports the best one (`build_features(…, 1, …)`), gives it rank
+    `i`, removes its matched peaks and recomputes the TIC. Which of several equally scored candidates a round reports
+    is read off the implementation's reply (it must be a best one); everything else is recomputed.
+    `useSpec` selects the naive recomputation (linear-scan windows, naive counts) or the code-mirroring model. -/
+def judgeChimera (r : Req) (useSpec : Bool) (impl : List String) : Option String :=
+  if impl == ["panic"] then some "panic" else
+  match impl with
+  | [] => some "shape"
+  | cnt :: rest =>
+    match (cnt.toNat?).bind (fun k => splitFeats k rest) with
+    | none => some "shape"
+    | some feats =>
+      let ranked := (feats.map fun g => (((g[17]?).bind String.toNat?).getD 0, g)).mergeSort (fun a b => a.1 ≤ b.1)
+      if ranked.map (·.1) != List.range' 1 ranked.length then some "rank" else
+      if ranked.length > r.reportPsms then some "reported_count" else
+      let hits := search r
+      let tol : Float := if r.openms then 2.0e-6 else 1.0e-9
+      let rel (m : Float) : Float := tol * (if absF m < 1.0 then 1.0 else absF m)
+      let sel (peaks : List (Peak Float32)) : Float32 → Option (Peak Float32) :=
+        if useSpec then (fun mz => let b := tolBounds E32 r.ftol mz; specSelect peaks b.1 b.2)
+        else (let arr := peaks.toArray; fun mz => select E32 arr mz r.ftol none)
+      let rec go : List (Nat × List String) → List (Peak Float32) → Float32 → Option String
+        | [], peaks, tic =>
+          -- the loop stops early only when a round reports nothing
+          if ranked.length < r.reportPsms && !(computeH { r with peaks := peaks, tic := tic } useSpec hits).isEmpty
+          then some "reported_count" else none
+        | (_, got) :: more, peaks, tic =>
+          let cands := computeH { r with peaks := peaks, tic := tic } useSpec hits
+          match findCand cands got with
+          | none =>
+            if cands.any (fun w => some (toString w.pep) == got[0]? && some (toString w.charge) == got[3]?) then some "isotope_error"
+            else if cands.any (fun w => some (toString w.pep) == got[0]? && some (canonF32 w.isotopeError) == got[1]?) then some "charge"
+            else some "unknown_candidate"
+          | some w =>
+            match featClause r w got with
+            | some c => some c
+            | none =>
+              if cands.any (fun c => w.hyperscore + rel w.hyperscore < c.hyperscore) then some "rank_order" else
+              match f64Tok got[8]?, f64Tok got[18]?, f64Tok got[19]? with
+              | some h, some dn, some db =>
+                if db.toBits != (h - h).toBits then some "delta_best" else
+                let others := (cands.filter (fun c => !(c.pep == w.pep && c.charge == w.charge && c.iso == w.iso))).map (·.hyperscore)
+                let next : Option Float := others.foldl (fun acc x => match acc with
+                  | none => some x
+                  | some m => some (if m < x then x else m)) none
+                let dnBad := match next with
+                  | none => dn.toBits != (h - 0.0).toBits
+                  | some m => !(absF (dn - (h - m)) ≤ rel m + rel h)
+                if dnBad then some "delta_next" else
+                let (peaks', tic') := removeMatched E32 (sel peaks) peaks (fzsOf r w.pep w.charge)
+                go more peaks' tic'
+              | _, _, _ => some "shape"
+      go ranked r.peaks r.tic
+
 /-- the model's rendering of the features the implementation reported (in the implementation's order) -/
 def renderModel (r : Req) (cands : List (Feat Float32 Float)) (impl : List String) : String :=
   let want := min r.reportPsms cands.length
@@ -437,12 +506,17 @@ def renderModel (r : Req) (cands : List (Feat Float32 Float)) (impl : List Strin
 
 def specVerdict (r : Req) (impl : List String) : String :=
   if !r.covered || !r.inDomain then "na" else
-  match judge r (compute r true) impl with
+  match (if r.chimera then judgeChimera r true impl else judge r (compute r true) impl) with
   | none => "ok"
   | some c => s!"bad:{c}"
 
 def runScore (r : Req) (impl : List String) : Reply :=
   if !r.covered then { model := "uncovered", agree := false, spec := "na" } else
+  if r.chimera then
+    let j := judgeChimera r false impl
+    { model := (match j with | none => "chimera-rounds-agree" | some c => s!"chimera-model-differs:{c}"),
+      agree := j.isNone, spec := specVerdict r impl }
+  else
   let cands := compute r false
   { model := renderModel r cands impl, agree := (judge r cands impl).isNone, spec := specVerdict r impl }
 
@@ -475,8 +549,10 @@ def handle (op : String) (args impl : List String) : Option Reply :=
     pure (runScore r impl)
   | "scoremany" => do
     let (rp, wide, iw, r) ← run (do
-      let rp ← nat; let w ← bool; let iw ← opt pTol; let r ← pReq; pure (rp, w, iw, r)) args
-    pure (runScore { r with reportPsms := rp, wide := wide, iw := iw } impl)
+      -- mode: bit 0 = wide_window, bit 1 = chimera
+      let rp ← nat; let w ← nat; let iw ← opt pTol; let r ← pReq; pure (rp, w, iw, r)) args
+    if wide > 3 then none else
+    pure (runScore { r with reportPsms := rp, wide := wide % 2 == 1, chimera := wide / 2 == 1, iw := iw } impl)
   | _ => none
 
 end Sage.C04
